@@ -17,8 +17,14 @@ from vlib.spec.cfg import CFG, check_derivation, lit, regex, tree_shape
 MAX_TREES = 400
 
 
-def layout_variants(w, tier, maxlen_for_layout):
+def layout_variants(w, tier, maxlen_for_layout, layout_rule=False):
     yield "plain", w
+    if layout_rule:
+        # grammar with a LAYOUT rule (blanks and '#'): layout that only the LAYOUT sub-parser can skip
+        yield "hash", "#" + " # ".join(w) + " #"
+        if len(w) <= maxlen_for_layout:
+            yield "hash2", "\n".join(w) + "##"
+        return
     if len(w) <= maxlen_for_layout:
         yield "spaced", " " + " ".join(w) + ("  " if w else " ")
         if tier == "thorough" or len(w) <= 2:
@@ -33,6 +39,9 @@ def used_terms(prods):
 TERMSETS = {
     "disjoint": None,  # inline strings 'a', 'b'
     "prefix": {"a": (lit("a"), "'a'"), "b": (lit("ab"), "'ab'")},
+    # a terminal that is a proper prefix of the other and can follow itself: a postponed shift of the
+    # longer token meets fresh shifts one character later
+    "prefix2": {"a": (lit("a"), "'a'"), "b": (lit("aa"), "'aa'")},
     "regex": {"a": (lit("a"), "'a'"), "b": (regex("a+"), "/a+/")},
     "regex2": {"a": (regex("a|ab"), "/a|ab/"), "b": (regex("b+"), "/b+/")},
 }
@@ -58,7 +67,20 @@ def glr_grammar_worker(args):
         terms = {t: ts[t][0] for t in ut}
         text = grammar_text(prods, {t: ts[t][1] for t in ut})
         tname = True
-    cfg = CFG(prods, terms)
+    ws = "\n\r\t "
+    layout_rule = bool(params.get("layout_rule"))
+    if layout_rule:
+        ws = "\n\r\t #"
+        lines = text.split("\n")
+        rules = ["LAYOUT: LayoutItem*;", "LayoutItem: WS | HASH;"]
+        tdecl = ["WS: /\\s+/;", "HASH: '#';"]
+        if "terminals" in lines:
+            k = lines.index("terminals")
+            lines = lines[:k] + rules + lines[k:] + tdecl
+        else:
+            lines = lines + rules + ["terminals"] + tdecl
+        text = "\n".join(lines)
+    cfg = CFG(prods, terms, ws=ws)
     cyclic = cfg.is_cyclic()
     pmap = prod_index_map(prods)
     res = {"evaluations": 0, "nontrivial": 0, "violations": [], "samples": [], "counters": {}}
@@ -71,6 +93,8 @@ def glr_grammar_worker(args):
         key = {"grammar": text, "tables": KIND_NAME[kind], "input": w}
         if tname:
             key["termset"] = params["termset"]
+        if layout_rule:
+            key["layout"] = "LAYOUT rule"
         key.update(extra)
         res["violations"].append((monitor, key, detail,
                                   {"family": "glr", "pid": pid, "prods": prods, "params": params}))
@@ -99,7 +123,7 @@ def glr_grammar_worker(args):
             viol("glr.constructs", kind, None, exc_str(e))
             continue
         for w in inputs(alphabet, params["max_len"]):
-            for vname, txt in layout_variants(w, tier, params["layout_len"]):
+            for vname, txt in layout_variants(w, tier, params["layout_len"], layout_rule):
                 if only and txt != only["input"]:
                     continue
                 res["evaluations"] += 1
@@ -224,7 +248,7 @@ def check_forest(pid, forest, cfg, L, cyclic, pmap, viol, kind, txt, bump, parse
             # each tree parses exactly the prefix its root span claims
             for i in range(n_spec):
                 t = forest.get_tree(i)
-                why = prefix_span_report(t, L.text)
+                why = prefix_span_report(t, L.text, ws=cfg.ws)
                 if why:
                     viol("glr.prefix_tree_span_is_its_prefix", kind, txt, {"tree_index": i, "why": why})
                     break
